@@ -20,7 +20,11 @@ package rawdb
 
 import (
 	"bytes"
+	"encoding/binary"
+	"encoding/json"
 	"fmt"
+	"os"
+	"regexp"
 	"sort"
 	"strings"
 	"sync"
@@ -29,6 +33,7 @@ import (
 	"github.com/ethereum/go-ethereum/ethdb"
 	"github.com/ethereum/go-ethereum/internal/verif/mc"
 	"github.com/ethereum/go-ethereum/internal/verif/vos"
+	"github.com/ethereum/go-ethereum/rlp"
 )
 
 const (
@@ -377,7 +382,7 @@ func c24Observe(f *Freezer, cfg c24Config, ctx *c24Ctx) (string, error) {
 				}
 			}
 			if ok < 0 {
-				return "", fmt.Errorf("table %s: item %d reads %x which is not what was appended at that position (admissible generations %v)", t.name, n, blob, ctx.accept[n])
+				return "", fmt.Errorf("table %s: item %d reads 0x%x which is not what was appended at that position (admissible generations %v)", t.name, n, blob, ctx.accept[n])
 			}
 			fmt.Fprintf(&sb, ",%d", ok)
 			singles = append(singles, blob)
@@ -412,7 +417,9 @@ func c24Observe(f *Freezer, cfg c24Config, ctx *c24Ctx) (string, error) {
 }
 
 // c24Recover reopens the image with the real recovery code and evaluates the oracle.
-func c24Recover(fs *vos.FS, cfg c24Config, ctx *c24Ctx, cont bool) (outcome string, err error) {
+// post de-duplicates the work after the first recovery: the second reopen and the
+// usability check are a function of the recovered disk state and the context only.
+func c24Recover(fs *vos.FS, cfg c24Config, ctx *c24Ctx, cont bool, post *sync.Map) (outcome string, err error) {
 	f, err := c24Open(fs, cfg)
 	if err != nil {
 		return "", fmt.Errorf("reopen after crash failed: %v", err)
@@ -426,7 +433,13 @@ func c24Recover(fs *vos.FS, cfg c24Config, ctx *c24Ctx, cont bool) (outcome stri
 	if err := f.Close(); err != nil {
 		return "", fmt.Errorf("close after recovery: %v", err)
 	}
+	outcome = fmt.Sprintf("lost_from_head=%d", ctx.maxH-head)
 	fp1 := fs.Fingerprint()
+	if post != nil {
+		if _, dup := post.LoadOrStore(mc.Hash64(cfg.name+"|"+fp1+"|"+ctx.key()), struct{}{}); dup {
+			return outcome, nil
+		}
+	}
 	// second reopen must be a no-op
 	f2, err := c24Open(fs, cfg)
 	if err != nil {
@@ -441,59 +454,63 @@ func c24Recover(fs *vos.FS, cfg c24Config, ctx *c24Ctx, cont bool) (outcome stri
 		f2.Close()
 		return "", fmt.Errorf("second reopen is not a no-op: %s then %s", sum1, sum2)
 	}
-	if cont {
-		// the recovered freezer must be usable: append one item, sync, read everything back
-		v := c24Val{c24ContGen, 5}
-		ctx2 := &c24Ctx{accept: map[uint64][]c24Val{}, hasObl: ctx.hasObl, hi: ctx.hi, lo0: ctx.lo0, loG: ctx.loG}
-		for n, a := range ctx.accept {
-			ctx2.accept[n] = a
-		}
-		ctx2.accept[head] = []c24Val{v}
-		_, err := f2.ModifyAncients(func(op ethdb.AncientWriteOp) error {
-			for ti, t := range cfg.tables {
-				if err := op.AppendRaw(t.name, head, c24Payload(ti, head, v)); err != nil {
-					return err
-				}
-			}
-			return nil
-		})
-		if err != nil {
-			f2.Close()
-			return "", fmt.Errorf("append after recovery failed: %v", err)
-		}
-		if err := f2.SyncAncient(); err != nil {
-			f2.Close()
-			return "", fmt.Errorf("sync after recovery failed: %v", err)
-		}
-		sum3, err := c24Observe(f2, cfg, ctx2)
-		if err != nil {
-			f2.Close()
-			return "", fmt.Errorf("after append on the recovered freezer: %v", err)
-		}
-		if err := f2.Close(); err != nil {
-			return "", fmt.Errorf("close: %v", err)
-		}
-		f3, err := c24Open(fs, cfg)
-		if err != nil {
-			return "", fmt.Errorf("third reopen failed: %v", err)
-		}
-		sum4, err := c24Observe(f3, cfg, ctx2)
-		f3.Close()
-		if err != nil {
-			return "", fmt.Errorf("third reopen: %v", err)
-		}
-		if sum3 != sum4 {
-			return "", fmt.Errorf("clean restart changed the content: %s then %s", sum3, sum4)
-		}
-	} else {
-		if err := f2.Close(); err != nil {
-			return "", fmt.Errorf("close after second reopen: %v", err)
-		}
-		if fp2 := fs.Fingerprint(); fp2 != fp1 {
-			return "", fmt.Errorf("second reopen modified the files:\nafter first:\n%s", fs.Dump())
-		}
+	if err := f2.Close(); err != nil {
+		return "", fmt.Errorf("close after second reopen: %v", err)
 	}
-	return fmt.Sprintf("lost_from_head=%d", ctx.maxH-head), nil
+	if fp2 := fs.Fingerprint(); fp2 != fp1 {
+		return "", fmt.Errorf("second reopen modified the files; now:\n%s", fs.Dump())
+	}
+	if !cont {
+		return outcome, nil
+	}
+	// the recovered freezer must be usable: append one item, sync, read everything back, restart
+	f3, err := c24Open(fs, cfg)
+	if err != nil {
+		return "", fmt.Errorf("third reopen failed: %v", err)
+	}
+	v := c24Val{c24ContGen, 5}
+	ctx2 := &c24Ctx{accept: map[uint64][]c24Val{}, hasObl: ctx.hasObl, hi: ctx.hi, lo0: ctx.lo0, loG: ctx.loG}
+	for n, a := range ctx.accept {
+		ctx2.accept[n] = a
+	}
+	ctx2.accept[head] = []c24Val{v}
+	_, err = f3.ModifyAncients(func(op ethdb.AncientWriteOp) error {
+		for ti, t := range cfg.tables {
+			if err := op.AppendRaw(t.name, head, c24Payload(ti, head, v)); err != nil {
+				return err
+			}
+		}
+		return nil
+	})
+	if err != nil {
+		f3.Close()
+		return "", fmt.Errorf("append after recovery failed: %v", err)
+	}
+	if err := f3.SyncAncient(); err != nil {
+		f3.Close()
+		return "", fmt.Errorf("sync after recovery failed: %v", err)
+	}
+	sum3, err := c24Observe(f3, cfg, ctx2)
+	if err != nil {
+		f3.Close()
+		return "", fmt.Errorf("after append on the recovered freezer: %v", err)
+	}
+	if err := f3.Close(); err != nil {
+		return "", fmt.Errorf("close: %v", err)
+	}
+	f4, err := c24Open(fs, cfg)
+	if err != nil {
+		return "", fmt.Errorf("reopen after append on the recovered freezer failed: %v", err)
+	}
+	sum4, err := c24Observe(f4, cfg, ctx2)
+	f4.Close()
+	if err != nil {
+		return "", fmt.Errorf("reopen after append on the recovered freezer: %v", err)
+	}
+	if sum3 != sum4 {
+		return "", fmt.Errorf("clean restart changed the content: %s then %s", sum3, sum4)
+	}
+	return outcome, nil
 }
 
 // ---- harvesting -------------------------------------------------------------
@@ -607,6 +624,141 @@ type c24Nested struct {
 	Loss  vos.Pattern `json:"loss"`
 }
 
+// c24Findings groups failing cases by root-cause class (the normalised first line of
+// the oracle message) and keeps the smallest example of each class; one violation per
+// class is reported at the end of the run, keyed by the class.
+type c24Findings struct {
+	mu    sync.Mutex
+	class map[string]*c24Finding
+}
+
+type c24Finding struct {
+	n    int64
+	c    c24Case
+	cj   string
+	desc string
+}
+
+var c24Digits = regexp.MustCompile(`[0-9]+`)
+var c24Hex = regexp.MustCompile(`\b0x[0-9a-f]*\b|\b[0-9a-f]{6,}\b`)
+var c24Tab = regexp.MustCompile(`table [a-c]\b`)
+
+func c24Class(err error) string {
+	line := err.Error()
+	if i := strings.IndexByte(line, '\n'); i >= 0 {
+		line = line[:i]
+	}
+	if i := strings.Index(line, " (admissible"); i >= 0 {
+		line = line[:i]
+	}
+	line = c24Hex.ReplaceAllString(line, "X")
+	line = c24Tab.ReplaceAllString(line, "table T")
+	line = c24Digits.ReplaceAllString(line, "N")
+	if len(line) > 160 {
+		line = line[:160]
+	}
+	return line
+}
+
+func (fd *c24Findings) add(c c24Case, err error, tags string) {
+	cl := c24Class(err)
+	cl = strings.TrimPrefix(cl, "after a second crash during recovery: ")
+	if tags != "" {
+		// the image satisfies the precondition of an established defect: file it there
+		cl = "{" + tags + "} recovery fails"
+	}
+	b, _ := json.Marshal(c)
+	fd.mu.Lock()
+	defer fd.mu.Unlock()
+	f := fd.class[cl]
+	if f == nil {
+		f = &c24Finding{}
+		fd.class[cl] = f
+	}
+	f.n++
+	better := f.n == 1 || len(c.Ops) < len(f.c.Ops) || (len(c.Ops) == len(f.c.Ops) && (c.Nested == nil) && f.c.Nested != nil) ||
+		(len(c.Ops) == len(f.c.Ops) && (c.Nested == nil) == (f.c.Nested == nil) && (len(b) < len(f.cj) || len(b) == len(f.cj) && string(b) < f.cj))
+	if better {
+		f.c, f.cj, f.desc = c, string(b), err.Error()
+	}
+}
+
+func (fd *c24Findings) report(r *mc.R) {
+	fd.mu.Lock()
+	defer fd.mu.Unlock()
+	var cls []string
+	for cl := range fd.class {
+		cls = append(cls, cl)
+	}
+	sort.Strings(cls)
+	for _, cl := range cls {
+		f := fd.class[cl]
+		r.OutcomeN("VIOLATING:"+cl, f.n)
+		r.Violation("C24/"+cl, fmt.Sprintf("%d failing crash images in this class; smallest example %s\n%s", f.n, f.cj, f.desc), f.c)
+	}
+}
+
+// c24Diagnose inspects a crash image (before recovery) for the preconditions of the
+// defects of the unchanged tree that this check has established (see the C24 report);
+// failures on such images are filed under the precondition so that they can be
+// tracked as known findings without masking anything else.
+func c24Diagnose(img *vos.FS, cfg c24Config) string {
+	files := img.Files()
+	var tags []string
+	add := func(t string) {
+		for _, x := range tags {
+			if x == t {
+				return
+			}
+		}
+		tags = append(tags, t)
+	}
+	for _, t := range cfg.tables {
+		ext := "cidx"
+		if t.cfg.noSnappy {
+			ext = "ridx"
+		}
+		idx, okI := files["fz/"+t.name+"."+ext]
+		meta, okM := files["fz/"+t.name+".meta"]
+		if okI && len(idx) > 0 && len(idx) < indexEntrySize {
+			add("index-file-shorter-than-one-entry")
+		}
+		if !okM || len(meta) == 0 || !okI || len(idx) < indexEntrySize {
+			continue
+		}
+		var o struct {
+			Version uint16
+			Tail    uint64
+			Offset  uint64
+		}
+		if err := rlp.Decode(bytes.NewReader(meta), &o); err != nil {
+			add("metadata-undecodable")
+			continue
+		}
+		usable := uint64(len(idx) - len(idx)%indexEntrySize)
+		if o.Offset < usable && o.Offset >= indexEntrySize {
+			usable = o.Offset
+		}
+		deleted := uint64(binary.BigEndian.Uint32(idx[2:6]))
+		if flushed := deleted + usable/indexEntrySize - 1; o.Tail > flushed {
+			add("virtual-tail-beyond-flushed-items")
+		}
+	}
+	sort.Strings(tags)
+	return strings.Join(tags, ",")
+}
+
+// c24Eval runs one case (honouring replay selection) and files a failure under its class.
+func c24Eval(r *mc.R, fd *c24Findings, c c24Case, img *vos.FS, cfg c24Config, fn func() error) {
+	r.Case(c, func() error {
+		tags := c24Diagnose(img, cfg) // evaluated on the crash image before recovery touches it
+		if err := mc.Safely(fn); err != nil {
+			fd.add(c, err, tags)
+		}
+		return nil
+	})
+}
+
 type c24Params struct {
 	full       bool // full (R,L) grid for torn appends
 	productCap int
@@ -615,6 +767,7 @@ type c24Params struct {
 	cont       bool
 	mergeMeta  bool
 	tries      int
+	post       *sync.Map
 }
 
 func c24OpList(ops []int) []string {
@@ -626,10 +779,10 @@ func c24OpList(ops []int) []string {
 }
 
 // c24ExploreSeq enumerates all crash images of the last operation of ops.
-func c24ExploreSeq(r *mc.R, cfg c24Config, ops []int, p c24Params, seen *sync.Map) {
+func c24ExploreSeq(r *mc.R, cfg c24Config, ops []int, p c24Params, seen *sync.Map, fd *c24Findings) {
 	runs, err := c24Variants(cfg, ops, p.tries, p.mergeMeta)
 	if err != nil {
-		r.Violation(fmt.Sprintf("nocrash:%s:%v", cfg.name, c24OpList(ops)), err.Error(), map[string]any{"cfg": cfg.name, "ops": c24OpList(ops), "nocrash": true})
+		fd.add(c24Case{Cfg: cfg.name, Ops: c24OpList(ops), Order: "no-crash"}, fmt.Errorf("without any crash: %v", err), "")
 		return
 	}
 	defer func() {
@@ -648,6 +801,10 @@ func c24ExploreSeq(r *mc.R, cfg c24Config, ops []int, p c24Params, seen *sync.Ma
 			ctx := c24MakeCtx(run.before, after, completed)
 			ckey := ctx.key()
 			cp := run.sys.fs.CrashAt(k, p.full)
+			if _, dup := seen.LoadOrStore(mc.Hash64("cp|"+cfg.name+"|"+cp.Key()+"|"+ckey), struct{}{}); dup && !r.Replaying() {
+				r.Outcome("duplicate_crash_state_skipped")
+				continue
+			}
 			pats, _ := cp.Patterns(vos.EnumOpt{ProductCap: p.productCap, MaxDev: p.maxDev})
 			for pi, pt := range pats {
 				img := cp.Build(pt)
@@ -660,8 +817,8 @@ func c24ExploreSeq(r *mc.R, cfg c24Config, ops []int, p c24Params, seen *sync.Ma
 				}
 				c := c24Case{Cfg: cfg.name, Ops: c24OpList(ops), Order: run.sig, K: k, Event: evs[k-1].String(), Loss: pt}
 				var outcome string
-				r.Case(c, func() error {
-					o, err := c24Recover(img, cfg, ctx, p.cont)
+				c24Eval(r, fd, c, img, cfg, func() error {
+					o, err := c24Recover(img, cfg, ctx, p.cont, p.post)
 					if err != nil {
 						return fmt.Errorf("%v\ncrash image:\n%s", err, c24ImageDump(cp, pt))
 					}
@@ -678,7 +835,7 @@ func c24ExploreSeq(r *mc.R, cfg c24Config, ops []int, p c24Params, seen *sync.Ma
 				}
 				// crash during the recovery itself (bound: one nested crash), from the two baseline images
 				if p.nested && len(pt.Pick) == 0 || p.nested && c24AllLost(cp, pt) {
-					c24Nest(r, cfg, cp, pt, c, ctx, p, seen)
+					c24Nest(r, cfg, cp, pt, c, ctx, p, seen, fd)
 				}
 			}
 		}
@@ -712,7 +869,7 @@ func c24ImageDump(cp *vos.CrashPoint, pt vos.Pattern) string {
 }
 
 // c24Nest crashes the recovery of one image at every event and recovers again.
-func c24Nest(r *mc.R, cfg c24Config, cp *vos.CrashPoint, pt vos.Pattern, outer c24Case, ctx *c24Ctx, p c24Params, seen *sync.Map) {
+func c24Nest(r *mc.R, cfg c24Config, cp *vos.CrashPoint, pt vos.Pattern, outer c24Case, ctx *c24Ctx, p c24Params, seen *sync.Map, fd *c24Findings) {
 	type rec struct {
 		fs  *vos.FS
 		n   int
@@ -725,7 +882,8 @@ func c24Nest(r *mc.R, cfg c24Config, cp *vos.CrashPoint, pt vos.Pattern, outer c
 	}
 	for i := 0; i < tries; i++ {
 		img := cp.Build(pt)
-		f, err := c24Open(img, cfg)
+		var f *Freezer
+		err := mc.Safely(func() (e error) { f, e = c24Open(img, cfg); return })
 		if err != nil {
 			img.Release()
 			return // already reported by the first-level case
@@ -764,8 +922,8 @@ func c24Nest(r *mc.R, cfg c24Config, cp *vos.CrashPoint, pt vos.Pattern, outer c
 				c := outer
 				c.Nested = &c24Nested{Order: rc.sig, K: k2, Event: evs[k2-1].String(), Loss: pt2}
 				var outcome string
-				r.Case(c, func() error {
-					o, err := c24Recover(img2, cfg, ctx, false)
+				c24Eval(r, fd, c, img2, cfg, func() error {
+					o, err := c24Recover(img2, cfg, ctx, p.cont, p.post)
 					if err != nil {
 						return fmt.Errorf("after a second crash during recovery: %v\nfirst crash image:\n%s\nsecond crash image:\n%s", err, c24ImageDump(cp, pt), c24ImageDump(cp2, pt2))
 					}
@@ -827,8 +985,37 @@ func c24ModelApply(m *c24Model, op int) {
 	}
 }
 
-func c24RunSpace(r *mc.R, cfg c24Config, alphabet []int, depth int, p c24Params, seen *sync.Map) {
+// c24ReplayTarget returns the case of the replay file (VERIF_REPLAY), if any, so that a
+// replay only harvests the one sequence it needs.
+func c24ReplayTarget() *c24Case {
+	p := os.Getenv("VERIF_REPLAY")
+	if p == "" {
+		return nil
+	}
+	raw, err := os.ReadFile(p)
+	if err != nil {
+		return nil
+	}
+	var f struct {
+		Replay *c24Case `json:"replay"`
+	}
+	if json.Unmarshal(raw, &f) != nil {
+		return nil
+	}
+	return f.Replay
+}
+
+func c24RunSpace(r *mc.R, cfg c24Config, alphabet []int, depth int, p c24Params, seen *sync.Map, fd *c24Findings) {
 	seqs := c24Sequences(cfg, alphabet, depth)
+	if tgt := c24ReplayTarget(); tgt != nil && r.Replaying() {
+		var keep [][]int
+		for _, sq := range seqs {
+			if cfg.name == tgt.Cfg && fmt.Sprint(c24OpList(sq)) == fmt.Sprint(tgt.Ops) {
+				keep = append(keep, sq)
+			}
+		}
+		seqs = keep
+	}
 	r.Bound(cfg.name+".sequences", len(seqs))
 	r.Bound(cfg.name+".depth", depth)
 	names := make([]string, len(alphabet))
@@ -842,7 +1029,7 @@ func c24RunSpace(r *mc.R, cfg c24Config, alphabet []int, depth int, p c24Params,
 		order[i] = len(seqs) - 1 - i
 	}
 	r.Parallel(len(seqs), func(i int) {
-		c24ExploreSeq(r, cfg, seqs[order[i]], p, seen)
+		c24ExploreSeq(r, cfg, seqs[order[i]], p, seen, fd)
 	})
 }
 
@@ -858,7 +1045,9 @@ func TestVerif_C24(t *testing.T) {
 		r.Assume("namespace operations are ordered and durable at the next fsync of any file/directory (journalled metadata); a crash keeps any prefix of the pending ones; rename is atomic")
 		r.Assume("reference model: latest payload appended per number, [lo,hi) covered by a completed SyncAncient/clean Close and not truncated since; payload bytes are never zero")
 		seen := &sync.Map{}
-		p := c24Params{full: false, productCap: 300, maxDev: 1, nested: true, cont: true, mergeMeta: true, tries: 24}
+		fd := &c24Findings{class: map[string]*c24Finding{}}
+		defer fd.report(r)
+		p := c24Params{full: false, productCap: 300, maxDev: 1, nested: true, cont: true, mergeMeta: true, tries: 24, post: &sync.Map{}}
 		depth := 3
 		if r.Thorough() {
 			p.full = true
@@ -871,10 +1060,10 @@ func TestVerif_C24(t *testing.T) {
 		r.Bound("loss_patterns", fmt.Sprintf("full product per crash point when <= %d images, else all-kept and all-lost baselines with <= %d deviating file(s)", p.productCap, p.maxDev))
 		r.Bound("nested_crash", "recovery of the all-kept and all-lost images is itself crashed at every event (baseline loss patterns), bound 1")
 		full := []int{c24OpApp1, c24OpApp2, c24OpSync, c24OpTH1, c24OpTH2, c24OpTT1, c24OpTT2, c24OpTTOver, c24OpReopen}
-		c24RunSpace(r, c24Configs[0], full, depth, p, seen)
-		c24RunSpace(r, c24Configs[1], full, depth, p, seen)
+		c24RunSpace(r, c24Configs[0], full, depth, p, seen, fd)
+		c24RunSpace(r, c24Configs[1], full, depth, p, seen, fd)
 		if r.Thorough() {
-			c24RunSpace(r, c24Configs[2], []int{c24OpApp1, c24OpApp2, c24OpSync, c24OpTH1, c24OpTT1, c24OpTT2}, 3, p, seen)
+			c24RunSpace(r, c24Configs[2], []int{c24OpApp1, c24OpApp2, c24OpSync, c24OpTH1, c24OpTT1, c24OpTT2}, 3, p, seen, fd)
 		}
 	})
 }
